@@ -11,13 +11,15 @@ PID = "C13"
 
 CADENCES = [(1, 3600), (2, 10), (60, 3600), (3600, 86400)]
 SMALL_RATES = [(1, 1), (10, 3), (2, 3), (7, 2), (1000, 1)]
+# metadata rates are not limited to 32-bit numerators: k*d beyond 2^64 and 10 MHz-class integer rates
+BIG_RATES = [(25 * 10**9, 1001), (10**10, 3), (10**7, 1), (25 * 10**6, 1), (3 * 10**7, 1001)]
 
 
 def jobs(tier):
     W = 256 if tier == "quick" else 8192
     per = 64 if tier == "quick" else 128
     out = []
-    rates = U.FP_RATES + SMALL_RATES
+    rates = U.FP_RATES + SMALL_RATES + BIG_RATES
     for (n, d) in rates:
         for (fc, sc) in CADENCES:
             for t in (1500000000, 3 * fc):
@@ -104,7 +106,7 @@ def replay(case):
 def main(tier):
     chk = core.Check(
         PID, tier, "exploration",
-        rule=("13 rates (8 realistic incl. 1e6/3, 1e8/7, 125e6/3, 2^32-1, (1e9+7)/(1e9-63); 5 small) x 4 cadence pairs x 2 "
+        rule=("18 rates (8 realistic incl. 1e6/3, 1e8/7, 125e6/3, 2^32-1, (1e9+7)/(1e9-63); 5 small; 5 with numerators up to 2.5e10 so that k*d exceeds 2^64) x 4 cadence pairs x 2 "
               "epochs x every file number j in a window of W consecutive files x k in {ceil(j*fc*n/d)-1, +0, +1}: written "
               "through DigitalMetadataWriter.write, located on disk by opening every file, and queried with read(k,k), "
               "read_latest, get_bounds. distinct_nontrivial = distinct (rate, cadence, file) triples touched."),
